@@ -86,7 +86,8 @@ def exhaustive_cases(maxlen):
 
 def long_cases():
     """lines far longer than anything above: > 512 B, > 64 KiB, > 1 MiB (LineReceiver's MAX_LENGTH limits what is READ,
-    not what is written) - as few or as many pairs.  Kept compact: ["key", unit, repetitions] is expanded by the driver."""
+    not what is written) - as few or as many pairs.  Kept compact: ["key", unit, repetitions] (and "times": the whole
+    list repeated) is expanded by the driver."""
     units = ["x", "a b", 'q"\\ ', "a=b,"]
     for unit in units:
         for total in (600, 5000, 70000):
@@ -94,16 +95,17 @@ def long_cases():
             yield {"long": [["ContactInfo", unit, total // (2 * len(unit))], ["Nickname", "y", 1],
                             ["Log", unit, total // (2 * len(unit))]], "busy": False}
     # many short pairs (a re-listed option with dozens of entries)
-    for n in (30, 120, 40000):
+    for n in (30, 120):
         yield {"long": [["MapAddress", "10.%d.%d.%d a%d.example" % (i // 65536, (i // 256) % 256, i % 256, i), 1]
-                        for i in range(n)] if n < 1000 else [["MapAddress", "10.0.0.1 a.example", 1]] * n, "busy": False}
+                        for i in range(n)], "busy": False}
+    yield {"long": [["MapAddress", "10.0.0.1 a.example", 1]], "times": 40000, "busy": False}
     # beyond 1 MiB in three values
     yield {"long": [["ContactInfo", "a b", 140000], ["Log", "x", 400000], ["Nickname", 'q"', 200000]], "busy": False}
 
 
 def drive(case):
     if "long" in case:
-        case = dict(case, pairs=[[k, unit * reps] for k, unit, reps in case["long"]])
+        case = dict(case, pairs=[[k, unit * reps] for k, unit, reps in case["long"]] * case.get("times", 1))
         res = _drive(case)
         res.label("long-line")
         return res
